@@ -207,7 +207,7 @@ def main(tier):
         mp = mitcross.mit_pac_cross(models, vlib.read_ndjson(os.path.join(wd, "images.ndjson")))
         run.extra["pacverify_vs_mit"] = {k: v for k, v in mp.items() if k != "first"}
         if mp.get("disagreements"):
-            raise vlib.Inconclusive("PACVerify and MIT's krb5_pac_verify disagree on %d images: %s" % (mp["disagreements"], mp["first"]))
+            vlib.spec_validation_problem(run, "PACVerify and MIT's krb5_pac_verify disagree on %d images: %s" % (mp["disagreements"], mp["first"]))
         # the real code
         trace = os.path.join(wd, "trace.ndjson")
         h = vlib.run_harness(["c19", "-images", os.path.join(wd, "images.ndjson"), "-sids", os.path.join(wd, "sids.ndjson"), "-out", trace,
